@@ -102,7 +102,7 @@ def run_tlc(prop, module, cfg=None, tier="quick", workers=8, seed=0, extra_env=N
     seen = set()
     with open(outp, "w") as outf:
         try:
-            p = subprocess.Popen(["timeout", str(timeout)] + cmd, cwd=wd, env=env, stdout=subprocess.PIPE,
+            p = subprocess.Popen(["timeout", "--foreground", str(timeout)] + cmd, cwd=wd, env=env, stdout=subprocess.PIPE,
                                  stderr=subprocess.STDOUT, text=True, bufsize=1 << 20)
         except OSError as e:
             raise ToolError(f"cannot start tlc: {e}")
@@ -177,7 +177,7 @@ def run_replay(prop, cases, name="cases", threads=12, timeout=1800, chunk=4000):
         with open(cin, "w") as f:
             for i in range(lo, hi):
                 f.write(json.dumps(cases[i], separators=(",", ":")) + "\n")
-        p = subprocess.run(["timeout", str(tmo), VH, "replay", cin, cout, str(nthreads)], cwd=wd, env=env_base(),
+        p = subprocess.run(["timeout", "--foreground", str(tmo), VH, "replay", cin, cout, str(nthreads)], cwd=wd, env=env_base(),
                            stdout=subprocess.PIPE, stderr=subprocess.STDOUT, text=True)
         if p.returncode != 0:
             return p.returncode
